@@ -114,6 +114,9 @@ def check_C01(chk):
             if k % 5 == 0:
                 # a value holding several regions with byte-identical contents
                 cases.append({"id": next(nid), "len": L, "nsend": 1, "nrecv": 0, "nshm": 2 + k % 3, "level": "typed", "samereg": 1})
+            if k % 5 == 1:
+                # ... and one holding several regions of DIFFERENT lengths and contents, next to endpoints: each at its own position
+                cases.append({"id": next(nid), "len": L, "nsend": 1 + k % 2, "nrecv": k % 2, "nshm": 2 + k % 4, "level": "typed"})
         # a few transient-refusal patterns too: "does not depend on how the transport happens to split the payload"
         for pat in ("1", "01", "001", "0101", "2", "02", "002", "012", "0102", "03", "004", "0013"):
             for L in (lens[len(lens) // 2], lens[-1], F.ffs(Sv) + 3 * F.fs(Sv) + 11):
@@ -127,7 +130,7 @@ def check_C01(chk):
     if thorough:
         big = [{"id": next(nid), "len": L, "level": lv} for L in (1 << 20, 16 << 20, 64 << 20, (64 << 20) - 17) for lv in ("platform", "bytes")]
         jobs.append((bins["default"], None, big, "default", True))
-    inproc = [{"id": next(nid), "len": L, "nsend": 1, "nrecv": 1, "nshm": 1, "level": lv, "prefail": L % 2}
+    inproc = [{"id": next(nid), "len": L, "nsend": 1, "nrecv": 1, "nshm": 1 + (L % 3 if lv == "typed" else 0), "level": lv, "prefail": L % 2}
               for L in F.boundary_lengths(4096, False)[::3] + [1 << 20] for lv in ("platform", "typed", "bytes")]
     for c in inproc:
         if c["level"] == "bytes":
